@@ -166,6 +166,19 @@ add("C18", "server", "exploration",
     "-(k+1)..k) and compared with Index queries and the chain data; pagination must concatenate to the full list with correct `more` flags.",
     "Truth is the same Index the server reads plus the harness's knowledge of the chain; HTML pages are not compared. Environment = mockcore + loopback HTTP.", "DESIGN.md sections 4 (E7) and 5 C18")
 
+WALLET_NOTE = ("Relative to mockcore's wallet emulation (largest-first funding, no signature validation) and a live in-process ord server; scenarios run in worker processes. "
+               "Wallet states are built from harness-crafted transactions paying to wallet addresses; amounts outside the lattice are not covered.")
+add("C22", "wallet", "exploration",
+    "complete product enumeration of wallet rune inventories x commands x amounts through the real wallet CLI, effects read back from the index",
+    "Rune inventories (1-3 runic outputs over two runes, an inscribed runic output) x {send, burn} x amounts {0, 1, one output's balance, +1, total, total+1} and split files (one / two outputs, two runes, zero amount) are run with the "
+    "real `ord wallet` commands; the broadcast transaction is mined and indexed, and recipients, wallet change and burned totals must match the request exactly; a zero request must be rejected.",
+    WALLET_NOTE, "DESIGN.md sections 4 (E6) and 5 C22")
+add("C23", "wallet", "exploration",
+    "complete product enumeration of wallet output kinds x node-funded commands through the real wallet CLI, inspection of broadcast transactions and the node's lock set",
+    "Every assignment of {cardinal, inscribed, runic, inscribed+runic} to wallet outputs that are larger than the single cardinal able to fund the command (the mock node funds largest-first, so a missing lock collides) x "
+    "{send sats, mint, send rune, burn rune, split}; broadcast transactions must spend no inscribed output and no runic output not holding the command's rune, and every unspent non-cardinal output must be locked.",
+    WALLET_NOTE + " `wallet offer create` is covered under C24's engine, not here.", "DESIGN.md sections 4 (E6) and 5 C23")
+
 NOT_YET = "check not built yet in this round (see DESIGN.md build order); not claimed"
 
 def main():
